@@ -476,6 +476,16 @@ def algorithms_agree(ck, tier, seed, salt=222):
                 o = obs[int(rng.integers(len(obs)))]
                 o.val += 5.0
                 feats = feats + ["blunder"]
+        # a share with one observation held very tight (cofactor (stdev / sigma-apr)^2 of 3e-9 .. 1e-8: control
+        # quantities that are meant not to move); its value is the true one, so it is consistent with the rest
+        if i % 5 == 2:
+            cand = [(cl, o) for cl, o in net.all_obs() if cl.cov is None and o.kind in ("distance", "s-distance", "dh")
+                    and o.true is not None]
+            if cand:
+                cl, o = cand[int(rng.integers(len(cand)))]
+                o.stdev = float(rng.uniform(5.5e-5, 1e-4)) * net.params["sigma_apr"]
+                o.val = o.true
+                feats = feats + ["tight-observation"]
         items.append((i, net, feats, netgen.to_gkf(net, fr)))
 
     def work(it):
@@ -495,8 +505,12 @@ def algorithms_agree(ck, tier, seed, salt=222):
             continue
         ocs = {alg: outcome(g) for alg, g in runs.items()}
         ck.case(("network", net.kind, "+".join(sorted(feats)) or "plain", "adjusted" if ocs["envelope"] == "adjusted" else "refused"))
+        # a very tight observation in a network with a datum defect is a class of its own (absolute pivot tolerances
+        # of the normal-equation solvers): its keys carry the class
+        pre = "network:tight-observation-in-singular-network" if ("tight-observation" in feats and
+                                                                 ("free" in net.kind or "mixed" in net.kind)) else "network"
         if len(set(ocs.values())) != 1:
-            ck.violation("network:outcome:%s" % "/".join(sorted(set(o.split(":")[0] for o in ocs.values()))),
+            ck.violation(pre + ":outcome:%s" % "/".join(sorted(set(o.split(":")[0] for o in ocs.values()))),
                          "algorithms disagree on the outcome: %s [%s, case %d]" % (ocs, net.kind, i), dict(wit, input=txt))
             continue
         if ocs["envelope"] != "adjusted":
@@ -507,7 +521,7 @@ def algorithms_agree(ck, tier, seed, salt=222):
             for b in range(a + 1, 4):
                 bad = compare_physical(P[ALGS[a]], P[ALGS[b]])
                 for key, msg, okey in bad:
-                    k = "network:%s:%s-vs-%s" % (key, ALGS[a], ALGS[b])
+                    k = pre + ":%s:%s-vs-%s" % (key, ALGS[a], ALGS[b])
                     if key in seen:
                         continue
                     seen.add(key)
